@@ -210,11 +210,12 @@ CHECKS = {
         'pkgs': ['./zzverif/hante'],
         'harnesses': [
             {'fn': A + 'H_C07_1_CosmosLaneScreening', 'over': {'max-paths': 100000}, 'must_reach': ['accepted', 'rejected']},
+            {'fn': A + 'H_C16_2_SubmitProof', 'must_reach': ['stored', 'refused']},
         ],
-        'level_text': 'Bounded exhaustive symbolic execution of the real Cosmos-lane decorators over transaction shapes (see C07): a vesting-creation message of any of the three kinds survives the ante handler only at top level and only for an address with a stored ownership proof; nested in MsgExec at any explored depth/position, granted through MsgGrant, or beside a proven one but itself unproven, it is refused.',
-        'level_note': 'Only the admission half of C16 is decided; the proof-submission message server (signature check, fixed fee burn, finality) is not encoded yet.',
+        'level_text': 'H_C16_2: the real vauth message server SubmitProofExternalOwnedAccount (message and stored-proof ValidateBasic, fee deduction and burn, SaveProof/HasProof/GetProof) with the signature check as an uninterpreted predicate, symbolic submitter balance, submitter = / != account, signature by the account key / another key / garbage, with / without prior proof: stored iff authorised, exact fee burnt, refusal changes nothing, second submission refused. H_C07_1: bounded exhaustive symbolic execution of the real Cosmos-lane decorators over transaction shapes (see C07): a vesting-creation message of any of the three kinds survives the ante handler only at top level and only for an address with a stored ownership proof; nested in MsgExec at any explored depth/position, granted through MsgGrant, or beside a proven one but itself unproven, it is refused.',
+        'level_note': 'Keccak and secp256k1 recovery inside vauth VerifySignature are uninterpreted (the harness registers which address the signature is valid for); native replay uses real signatures.',
         'bounds': ['as C07'],
-        'outside': ['vauth SubmitProofExternalOwnedAccount (signature verification, fee burn, no overwrite)', 'ECDSA / Keccak'],
+        'outside': ['ECDSA / Keccak', 'hex string syntax of signatures beyond the concrete ones used'],
         'assumptions': COMMON_ASSUMPTIONS,
     },
     'C08': {
@@ -235,12 +236,13 @@ CHECKS = {
     'C09': {
         'level_text': 'Bounded model checking of the real CalculateBaseFee / EndBlock / misc.CalcBaseFee code: every feasible path is enumerated and each assertion (no panic, EIP-1559 value, floors) is decided by z3 over the full integer ranges stated in the bounds; this is the right level because the property is pure integer arithmetic whose failures sit at rare boundary values (zero gas target, >int64 fees).',
         'level_note': 'Trusted: gosym interpreter and Int encoding, z3 5.1.0 (cross-checked by z3 4.8.12/cvc5), store/codec/logger models; BaseApp block-gas-meter rule (limited iff MaxGas > 0) is modelled in the harness; fee-market end blocker ordering is not checked.',
-        'pkgs': ['./x/feemarket/keeper'],
+        'pkgs': ['./x/feemarket/keeper', './zzverif/hante'],
         'harnesses': [
             {'fn': P + 'x/feemarket/keeper.H_C09_1_CalcBaseFee'},
             {'fn': P + 'x/feemarket/keeper.H_C09_3_EndBlock'},
+            {'fn': A + 'H_C09_2_FeeAdmission', 'must_reach': ['accepted', 'refused']},
         ],
-        'bounds': ['base fee in [0, 2^252)', 'min gas price (18-decimals raw) in [0, 2^256)', 'consensus MaxGas any int64 >= -1 (incl. -1, 0, 1), block params present or absent',
+        'bounds': ['H_C09_2: base fee, tip, cap, gas price < 2^100, fee < 2^200, global and validator minimum gas price (18 decimals raw) < 2^160, gas in {1, 21000, 10^6}, 4 transaction kinds (Cosmos without / with dynamic-fee extension, Ethereum legacy / dynamic), deliver and check mode', 'base fee in [0, 2^252)', 'min gas price (18-decimals raw) in [0, 2^256)', 'consensus MaxGas any int64 >= -1 (incl. -1, 0, 1), block params present or absent',
                    'block gas used any uint64 (meter kind as BaseApp.getBlockGasMeter)', 'no loops: no unwinding bound needed'],
         'outside': ['base fees >= 2^252 (the next base fee, up to 9/8 of it, no longer fits sdkmath.Int)', 'module-manager ordering of end blockers', 'London fork not active (config is the default chain config, all forks at block 0)'],
         'assumptions': COMMON_ASSUMPTIONS,
